@@ -440,6 +440,15 @@ class Engine:
                 return ('fnitem', op['fn'])
             v = op.get('value')
             from .facts import norm_value
+            if isinstance(v, dict) and v.get('static') and v['static'] in self.facts.consts and self.facts.consts[v['static']] is not None \
+                    and not (isinstance(self.facts.consts[v['static']], tuple) and self.facts.consts[v['static']][:1] == ('novaltree',)):
+                # `&STATIC` of an immutable static whose initializer was evaluated: a pointer to that constant table
+                tv = value_to_term(self.facts.consts[v['static']])
+                if tv[0] in ('agg', 'c'):
+                    if tv[0] == 'agg' and tv[1] == 'array' and len(tv[4]) >= 4:
+                        NAMED_CONSTS[v['static']] = tv
+                        tv = ('named', v['static'])
+                    return ('ref', ('K', tv))
             t = value_to_term(norm_value(v))
             if t[0] == 'unk' and op.get('path'):
                 return ('unk', 'const', op['path'])
@@ -1934,6 +1943,15 @@ def m_max_min(which):
     return m
 
 
+def m_once_init(eng, st, args, info):
+    """OnceLock::get_or_init(&cell, f) / get_or_try_init: the value is what `f` computes (whenever that happens to run first - the cell
+    only caches it); the closure is walked so that what it builds (a compiled pattern) is seen"""
+    if len(args) != 2:
+        return None
+    fn, fid = info['fn'], info['fid']
+    return Work(eng.call_value_k(st, fn, fid, args[1], [], lambda s3, r: _finish_call(eng, s3, info, ('ref', ('K', r)))))
+
+
 def m_partial_ord(op):
     """`a < b` etc. on a newtype struct that DERIVES PartialOrd (one field): the comparison of the fields"""
     def m(eng, st, args, info):
@@ -2079,6 +2097,8 @@ DEFAULT_FOLD_ONLY = {
 
 DEFAULT_MODELS = {
     'std::cmp::PartialOrd::le': lambda eng, st, args, info: (m_log_le(eng, st, args, info) or m_partial_ord('Le')(eng, st, args, info)),
+    'std::sync::OnceLock::<T>::get_or_init': m_once_init,
+    'std::cell::OnceCell::<T>::get_or_init': m_once_init,
     'std::cmp::PartialOrd::lt': m_partial_ord('Lt'),
     'std::cmp::PartialOrd::gt': m_partial_ord('Gt'),
     'std::cmp::PartialOrd::ge': m_partial_ord('Ge'),
